@@ -45,3 +45,5 @@ def run(repo, res, tier):
     # the repair hook edits the module through pop() / append(): both representations of the container stay in step
     from .. import multidict as _md8
     _md8.rule_m2(repo, res)
+    # consecutive missing values: progress made by the repair hook keeps the module loop going
+    hookrules.rule_hook_flag(repo, res)
